@@ -140,7 +140,7 @@ def run_tlc(table):
             shutil.copy(os.path.join(tlcrun.SPEC_DIR, fn), os.path.join(workdir, fn))
         with open(os.path.join(workdir, "PytreeTable.tla"), "w") as f:
             f.write(to_tla(table))
-        cmd = ["java", "-XX:+UseParallelGC", "-Xss64m", "-Xmx1g", "-cp", tlcrun.JAR, "tlc2.TLC", "-workers", "1",
+        cmd = ["java", "-XX:+UseParallelGC", "-Djava.io.tmpdir=" + workdir, "-Xss64m", "-Xmx1g", "-cp", tlcrun.JAR, "tlc2.TLC", "-workers", "1",
                "-metadir", os.path.join(workdir, "meta"), "-noGenerateSpecTE", "-config", "MC_C18.cfg", "Pytree.tla"]
         t0 = time.time()
         pr = subprocess.run(cmd, cwd=workdir, capture_output=True, text=True, timeout=600)
